@@ -238,6 +238,11 @@ func suiteHostile(h *H) {
 				}
 			}
 		}
+		var bnames []string
+		for _, f := range es {
+			bnames = append(bnames, fmt.Sprintf("%q:%o", strings.ReplaceAll(string(f.e.name), world, "$W"), f.e.mode))
+		}
+		h.begin(fmt.Sprintf("!hostile seed=%d %s opts=%s list=[%s]", h.seed, tag, strings.Join(args, ","), strings.Join(bnames, " ")))
 		before := canarySnapshot(world, dst)
 		out := runHostileClient(args, dst, hostileStream(es, o, h))
 		// a receiver returning an error may still have its generator running for a moment
